@@ -1356,7 +1356,13 @@ def _writer_column(ctx, o, f, node, col, e, S, W):
             if isinstance(leaf, ast.Call) and isinstance(leaf.func, ast.Attribute) and leaf.func.attr == 'join' and len(leaf.args) == 1:
                 sep = const_str(leaf.func.value)
                 if sep is None:
-                    unk(leaf.func.value, f"separator of `{col}` is not a constant")
+                    sv = leaf.func.value
+                    if isinstance(sv, ast.Name) and (sv.id in f.params or sv.id in ctx.prog.func(CSV + '.write_csv').params):
+                        bad(f"{sv.id}.join", f"`{col}` is joined with the parameter `{sv.id}` (whatever the caller passes, e.g. the csv delimiter); the property "
+                                             f"fixes {ID_SEP!r} between predecessor ids and the reader splits the cell at a fixed separator: the list is read "
+                                             f"back correctly only for {sv.id}={ID_SEP!r}")
+                    else:
+                        unk(leaf.func.value, f"separator of `{col}` is not a constant")
                     continue
                 info['sep'] = sep
                 if sep != ID_SEP:
@@ -2024,11 +2030,30 @@ def _single_copy(ctx, o, fn, dst_name):
     return gcs
 
 
-def _hop_kw(o, fn, call, field, value, srcvar, what):
+def _hop_kw(o, fn, call, field, value, srcvar, what, ctx=None, body=None):
     """keyword value must be srcvar.field -> True ok / False reported"""
     want = ast.Attribute(value=ast.Name(id=srcvar, ctx=ast.Load()), attr=field, ctx=ast.Load())
     if same(value, want):
         return True
+    if ctx is not None and isinstance(value, (ast.IfExp, ast.BoolOp)):
+        # `<constant> if C else x.field`: fine when C only says that x.field is absent; a condition about something else
+        # replaces the field's value by the constant for some objects
+        ok = True
+        for conds, leaf in split_cases(ctx, body or fn, value):
+            if same(leaf, want):
+                continue
+            facts, unknown = sym_facts(conds, want)
+            if isinstance(leaf, ast.Constant) and leaf.value in (None, '') and not unknown and facts & {'none', 'falsy', 'empty'} \
+                    and FIELD_KIND.get(field) in ('text', 'date') | ({'float', 'optint'} if 'none' in facts else set()):
+                continue
+            ok = False
+            if isinstance(leaf, ast.Constant) and unknown and not any(_mentions(t, want) for t, _p in unknown):
+                o.refute(fn, call, f"{what}({field}={src(leaf)} when {cond_text(unknown)[:50]})",
+                         f"{what}(...) receives the constant {src(leaf)} instead of {srcvar}.{field} when `{cond_text(unknown)[:60]}` - a condition that says "
+                         f"nothing about {srcvar}.{field} itself: the value such objects carry is not written and comes back as {src(leaf)}")
+            else:
+                o.undecided(fn, call, f"{what}({field}={src(value)[:50]})", f"{what}(...) keyword `{field}` is not simply {srcvar}.{field}")
+        return ok
     attrs = sorted({n.attr for n in ast.walk(value) if isinstance(n, ast.Attribute) and isinstance(n.value, ast.Name) and n.value.id == srcvar})
     if attrs and field not in attrs:
         o.refute(fn, call, f"{what}({field}={src(value)[:50]})", f"{what}(...) receives `{field}` from `{src(value)[:50]}`; expected {srcvar}.{field}")
@@ -2213,7 +2238,7 @@ def ob_fields(ctx, o, F):
         # ---------------- hop A: Task -> TaskRaw
         route_a = None
         if field in akw:
-            if not _hop_kw(o, t2r, actor, field, akw[field], tvar, 'TaskRaw'):
+            if not _hop_kw(o, t2r, actor, field, akw[field], tvar, 'TaskRaw', ctx, t2r_b):
                 continue
             if field not in raw_sn.stores_param(field):
                 o.refute(raw_sn.init, None, f"TaskRaw.__init__ {field}", f"TaskRaw.__init__ does not store parameter `{field}` as self.{field}")
@@ -2280,7 +2305,7 @@ def ob_fields(ctx, o, F):
                 continue
         # ---------------- hop D: TaskRaw -> Task
         if field in dkw:
-            if not _hop_kw(o, r2w, dctor, field, dkw[field], rvar, 'Task'):
+            if not _hop_kw(o, r2w, dctor, field, dkw[field], rvar, 'Task', ctx, r2w_b):
                 continue
             if not task_sn.stores_param(field):
                 o.refute(task_sn.init, None, f"Task.__init__ {field}", f"Task.__init__ does not store parameter `{field}`")
@@ -2415,6 +2440,56 @@ def _incremental_member_filter(fx, ifs, at):
     return None
 
 
+def _post_ctor_store(fx, ctor, attr, tvar):
+    """the value `<new object>.<attr>` has after `X = Ctor(..)` when attr is not a constructor keyword but assigned afterwards:
+    `X.attr = V` (once)                     -> V expanded
+    `if C: X.attr = V`                      -> V if C else None       (None: the constructor default)
+    `X.attr = ACC` with ACC filled by one `for v in IT: ACC.append(E)` loop  -> [E for v in IT ..]
+    no store at all -> None;  anything else -> 'unknown'"""
+    from .c13_util import _acc_loop
+    f = fx.f
+    xname = None
+    for n in walk_no_nested(f.node):
+        if isinstance(n, ast.Assign) and n.value is ctor and len(n.targets) == 1 and isinstance(n.targets[0], ast.Name):
+            xname = n.targets[0].id
+    stores = [n for n in walk_no_nested(f.node) if isinstance(n, (ast.Assign, ast.AugAssign, ast.AnnAssign))
+              for t in (n.targets if isinstance(n, ast.Assign) else [n.target])
+              if isinstance(t, ast.Attribute) and t.attr == attr and isinstance(t.value, ast.Name) and t.value.id == xname]
+    dyn = [n for n in walk_no_nested(f.node) if isinstance(n, ast.Call) and set_attr_call(n) is not None
+           and const_str(set_attr_call(n)[1]) == attr]
+    if not stores and not dyn:
+        return None
+    if xname is None or dyn or len(stores) != 1 or not isinstance(stores[0], ast.Assign) or len(stores[0].targets) != 1:
+        return 'unknown'
+    st = stores[0]
+    cn, sn_ = fx.cfg.node_containing(ctor), fx.cfg.node_of(st)
+    if cn is None or sn_ is None or not fx.cfg.dominates(cn, sn_) and fx.cfg.conditions(sn_) == fx.cfg.conditions(cn):
+        return 'unknown'
+    outer = len(fx.cfg.conditions(cn))
+    conds = fx.conds(st, keep=[tvar])
+    inner = fx.cfg.conditions(sn_)[outer:]
+    conds = conds[len(conds) - sum(len(split_conj_(fx.x(t, keep=[tvar]), pol)) for t, pol in inner):] if inner else []
+    v = st.value
+    if isinstance(v, ast.Name) and v.id in fx.acc:
+        apps = [n for n in walk_no_nested(f.node) if isinstance(n, ast.Call) and isinstance(n.func, ast.Attribute) and n.func.attr == 'append'
+                and isinstance(n.func.value, ast.Name) and n.func.value.id == v.id]
+        loops = [l for a_ in apps for l in fx.enclosing_fors(a_)[-1:]]
+        comp = _acc_loop(fx, loops[0]) if len(apps) == 1 and loops else None
+        if comp is None or comp[0] != v.id:
+            return 'unknown'
+        val = comp[1]
+    else:
+        val = fx.x(v, keep=[tvar])
+    for t, pol in reversed(conds):
+        val = ast.IfExp(test=t if pol else ast.UnaryOp(op=ast.Not(), operand=t), body=val, orelse=ast.Constant(value=None))
+    return ast.fix_missing_locations(val)
+
+
+def split_conj_(t, pol):
+    from sa.facts import split_conj
+    return split_conj(t, pol)
+
+
 def ob_id_opacity(ctx, o, F):
     prog = ctx.prog
     task = prog.cls('Task')
@@ -2486,11 +2561,14 @@ def ob_id_opacity(ctx, o, F):
     actor, tvar, t2r_b = a
     fx = fx_of(ctx, t2r_b)
     kw, _ = call_kwargs(actor, StaticNames(prog, 'TaskRaw').params())
+    post = {a: _post_ctor_store(fx, actor, a, tvar) for a in STRUCTURAL if a not in kw}
     par = ast.Attribute(value=ast.Name(id=tvar, ctx=ast.Load()), attr='parent', ctx=ast.Load())
-    if 'parent_id' not in kw:
+    if 'parent_id' not in kw and post.get('parent_id') == 'unknown':
+        o.undecided(t2r, actor, 'parent_id stored after construction', "`.parent_id` of the new TaskRaw is assigned after construction in a way the rule does not follow")
+    elif 'parent_id' not in kw and post.get('parent_id') is None:
         o.refute(t2r, actor, 'TaskRaw(...) without parent_id', "the parent's id is not recorded: the hierarchy is lost")
     else:
-        e = fx.x(kw['parent_id'], keep=[tvar])
+        e = fx.x(kw['parent_id'], keep=[tvar]) if 'parent_id' in kw else post['parent_id']
         good = True
         have_value = False
         for conds, leaf in split_cases(ctx, t2r_b, e):
@@ -2519,10 +2597,12 @@ def ob_id_opacity(ctx, o, F):
             o.refute(t2r, actor, f"parent_id={src(leaf)[:60]}", f"parent_id is recorded as `{src(leaf)[:60]}`; expected {tvar}.parent.id")
         if good and have_value:
             o.site(t2r, actor, f"parent_id = {tvar}.parent.id iff the task has a parent")
-    if 'predecessor_ids' not in kw:
+    if 'predecessor_ids' not in kw and post.get('predecessor_ids') == 'unknown':
+        o.undecided(t2r, actor, 'predecessor_ids stored after construction', "`.predecessor_ids` of the new TaskRaw is assigned after construction in a way the rule does not follow")
+    elif 'predecessor_ids' not in kw and post.get('predecessor_ids') is None:
         o.refute(t2r, actor, 'TaskRaw(...) without predecessor_ids', "predecessor ids are not recorded: dependencies are lost")
     else:
-        e = fx.x(kw['predecessor_ids'], keep=[tvar])
+        e = fx.x(kw['predecessor_ids'], keep=[tvar]) if 'predecessor_ids' in kw else post['predecessor_ids']
         pr = ast.Attribute(value=ast.Name(id=tvar, ctx=ast.Load()), attr='predecessors', ctx=ast.Load())
         if isinstance(e, ast.ListComp) and len(e.generators) == 1 and isinstance(e.generators[0].target, ast.Name):
             g = e.generators[0]
